@@ -112,6 +112,84 @@ def cases64(rng, tier):
     return xs, js
 
 
+# ----------------------------------------------------------------------------------------------------------------
+# INEXACT double weights (outside the exact domain of the models; C05 only, judged structurally - seeded change C05/r7m2: a search radius
+# (2k-1)*w(e) for the closing path of a dropped edge, which repeated floating-point addition along the path can exceed)
+# ----------------------------------------------------------------------------------------------------------------
+DECIMALS = [0.7, 0.9, 1.4, 1.8, 2.3, 0.1, 0.3, 0.1 + 0.2, 1.1, 0.6]
+
+
+def hgraph_tokens(n, es):
+    return "%d %d%s" % (n, len(es), "".join(" %d %d %s" % (u, v, float(w).hex()) for (u, v, w) in es))
+
+
+def parse_hcase(line):
+    """Y <alg> <k> n m (u v hexw)*m -> (alg, k, n, [(u, v, Fraction)])"""
+    from fractions import Fraction
+    t = line.split(); alg, k = t[1], int(t[2]); n, m = int(t[3]), int(t[4]); p = 5; es = []
+    for _ in range(m):
+        es.append((int(t[p]), int(t[p + 1]), Fraction(float.fromhex(t[p + 2])))); p += 3
+    return alg, k, n, es
+
+
+def inexact_cases(rng, tier):
+    """uniform and few-valued decimal weights (not dyadic: sums round) on cycles C_2k, C_2k with chords and small dense graphs, k = half the cycle
+    length and its neighbours: the inputs on which a dropped edge's closing path in the spanner has exactly 2k-1 edges as heavy as the edge itself"""
+    out = []
+    def emit(g, ks, i):
+        n, es = g
+        if rng.random() < 0.6:
+            n, es = gen.relabel(rng, n, es)
+        for j, k in enumerate(ks):
+            out.append("Y %s %d %s" % (ALGS[(i + j) % 3], k, hgraph_tokens(n, es)))
+    i = 0
+    # (1) uniform weight on C_L, k = L/2 (the dropped edge closes along L-1 = 2k-1 equal edges) and the neighbouring k
+    for L in ((8, 10, 12, 14, 16) if tier == "quick" else range(6, 42, 2)):
+        for w in DECIMALS[:8] if tier == "quick" else DECIMALS:
+            i += 1
+            emit((L, [(j, (j + 1) % L, w) for j in range(L)]), [L // 2] + ([L // 2 - 1, L // 2 + 1] if i % 2 == 0 else []), i)
+    # (2) C_L with chords / pendant edges, uniform or two-valued
+    for _ in range(35 if tier == "quick" else 400):
+        i += 1
+        L = rng.choice([8, 8, 10, 12, 14]); w = rng.choice(DECIMALS); w2 = rng.choice(DECIMALS + [w, w])
+        n, es = cycle_with_chords(rng, L, rng.randint(0, 2))
+        es = [(u, v, w if abs(u - v) in (1, L - 1) else rng.choice([w, w2, 3 * w])) for (u, v, _) in es]
+        if rng.random() < 0.3: es.append((rng.randrange(n), n, w2)); n += 1
+        emit((n, es), [rng.choice([L // 2, L // 2, L // 2 - 1, L // 2 + 1, 2])], i)
+    # (3) small dense graphs and the girth families, few-valued decimal weights
+    for _ in range(40 if tier == "quick" else 500):
+        i += 1
+        import exact_common
+        g = exact_common.dense_small(rng) if rng.random() < 0.5 else spanner_keeps_cycles(rng, 12)
+        vals = rng.sample(DECIMALS, rng.choice([1, 2, 2, 3]))
+        emit((g[0], [(u, v, rng.choice(vals)) for (u, v, _) in g[1]]), [rng.choice([1, 2, 2, 3, 4, 5])], i)
+    return out
+
+
+def judge_inexact(line, ans):
+    """structural judge for a `Y` case (inexact double weights; k >= 1): the right number of cycles, every emitted list a simple cycle of the caller's
+    graph, GF(2)-independent, returned value = sum of the emitted weights up to relative 1e-9 (exact rational sum of the given doubles).  No model
+    comparison, no optimality claim.  None or a reason."""
+    from fractions import Fraction
+    alg, k, n, es = parse_hcase(line)
+    a = parse_answer(ans)
+    if a[0] != "RET": return "did not return a basis on a valid input with k = %d: %s" % (k, ans[:160])
+    ret, cycles = a[1], a[2]
+    for j, cy in enumerate(cycles):
+        if any(not isinstance(x, int) or x < 0 or x >= len(es) for x in cy):
+            return "cycle #%d %s contains an edge descriptor that is not an edge of the caller's graph" % (j, cy)
+    why = O.judge_basis(n, es, cycles)
+    if why: return why
+    try:
+        r = Fraction(float.fromhex(str(ret))) if not isinstance(ret, int) else Fraction(ret)
+    except ValueError:
+        return "returned value %s is not a number" % ret
+    tot = sum((es[x][2] for cy in cycles for x in cy), Fraction(0))
+    if abs(r - tot) > Fraction(1, 10 ** 9) * tot:
+        return "returned value %r differs from the total weight %r of the emitted cycles by more than 1e-9 relative" % (float(r), float(tot))
+    return None
+
+
 def small_exhaustive_cases(maxv=5):
     out = []
     for n in range(3, maxv + 1):
@@ -479,6 +557,23 @@ def run(c, tier, what):
         c.extra["verified_checker_cases"] = len(refq)
     elif not refok:
         c.notes.append("verified checker (RefModel) not available in this run")
+    # ---- inexact double weights: structural judgement only (C05) ------------------------------------------------------
+    if what == "basis":
+        ylines = [cs for cs in corpus if cs.startswith("Y ")] + inexact_cases(random.Random(c.seed * 7919 + 566), tier)
+        yio = lib.run_lines([exe], ylines)
+        ny = 0
+        for y, o in zip(ylines, yio):
+            alg, k, n, es = parse_hcase(y)
+            c.count(y, k >= 1 and len(es) - n + O.components(n, es) >= 1, bucket="inexact-weights %s k=%d" % (alg, k))
+            why = judge_inexact(y, o) if k >= 1 else None
+            if why and ny < 3:
+                ny += 1
+                c.violation("approx_mcb_sva_%s, k=%d, INEXACT double weights (given as hex floats; outside the exact domain of the models, judged structurally: "
+                            "count m-n+c, simple cycles of the caller's graph, independent, returned value = sum of the emitted weights up to 1e-9): %s" % (alg, k, why),
+                            {"component": "c05", "case": y, "impl": o}, True)
+        c.extra["inexact_weight_cases"] = len(ylines)
+        c.rule += ("; plus (structural judgement only) inexact double weights: uniform and few-valued decimals (0.7, 0.9, 1.4, 0.1+0.2, ...) on cycles C_2k with k = half the "
+                   "length and neighbouring k, C_2k with chords, small dense graphs and the girth families")
     # ---- parmcb::dijkstra directly ----------------------------------------------------------------------------------
     if jlines:
         jio = lib.run_lines([exe], jlines)
@@ -508,7 +603,9 @@ def replay_case(pid, path, what):
     o = lib.run_lines([exe], [line], par=1)[0]
     print("case:", line); print("impl:", o)
     bad = None
-    if line.startswith("J "):
+    if line.startswith("Y "):
+        bad = judge_inexact(line, o) if what == "basis" else None
+    elif line.startswith("J "):
         m = lib.run_model("dijk", [" ".join(line.split()[2:])], par=1, group="c05")[0]; print("model:", m)
         bad = judge_dijkstra(line, o) or (None if m == o else "differs from model")
     else:
